@@ -3,23 +3,46 @@
 R1  protocol conformance: every subscript / attribute access on
     `self.aircraft_parameters` is supported by Bada3AircraftParameters (declared
     field, method, or __getitem__ for subscripts).
-R2  thrust shape: total-energy thrust is limited above by max cruise thrust in
-    cruise and max climb thrust otherwise, then replaced by descent thrust
-    exactly where it is negative; descent thrust is chosen by the h_p_des
-    comparison in feet.
-R3  cruise-only correction: cruise fuel flow is used exactly where in_cruise,
-    nominal fuel flow elsewhere; specific ground range = ground speed / fuel
-    flow behind a non-zero guard.
-R4  trapezoid update shape: mass[1:] = mass[0] − cumtrapz(1/sgr), mirrored
-    backward.
+
+R2-R4 are decided on the *resolved value* of a result: every local replaced by
+the expression defining it at that point (a re-bound local and a chain of
+single-assignment locals give the same tree), plain module-level helper
+functions of the BADA package looked through, call arguments bound to the
+callee's parameters (positional or keyword).
+
+R2  thrust shape: the returned thrust is np.where(T < 0, D, T) (or the `>= 0`
+    mirror) where T - the same expression on both sides - is the total-energy
+    thrust limited above by M (np.where in any of its four orientations, or
+    np.minimum); M is max cruise thrust where in_cruise and max climb thrust
+    otherwise; D is the high-altitude descent rating strictly above h_p_des
+    compared in feet, the low-altitude rating otherwise; total-energy thrust is
+    evaluated for drag(cd(cl(mass, rho, v_tas)), rho, v_tas), mass, v_tas,
+    rocd, acceleration with rho from the ISA pressure at altitude and the
+    temperature; all ratings at (altitude, v_tas, temperature).  np.clip /
+    np.maximum with the descent thrust as a lower bound is a violation.
+R3  cruise-only correction: specific ground range is np.divide(groundspeed, F,
+    where=F != 0) with F = np.where(in_cruise, cruise fuel flow, nominal fuel
+    flow), both from one thrust and v_tas, the thrust from calculate_thrust at
+    the state passed in.
+R4  trapezoid update: the single store to mass is mass[1:] = mass[0] −
+    cumulative_trapezoid(1 / S, dx=segment_distance), backward mass[:-1] =
+    mass[-1] + cumulative_trapezoid((1 / S) reversed, dx=…) reversed, with S the
+    specific ground range floored: np.where(sgr < 1, np.inf, sgr).
 R5  MTOW clamp: in the fuel-dependent initial-mass iterations mass[0] is only
     ever assigned from min(…, mtow); the two sibling iterations agree up to the
     reserve term.
 R7  assign_parameters_fromdict assigns every entry it is given (no value-based
     skipping).
-R6  equation conformance (T-ALG): every straight-line BADA-3 formula equals the
-    independent transcription in reference_equations.py as an exact rational
-    function.
+R6  equation conformance (T-ALG): every straight-line BADA-3 formula (locals
+    resolved, package helper functions looked through) equals the independent
+    transcription in reference_equations.py as an exact rational function.
+    Engine selection: `create_engine_model` is followed once per engine type
+    with `aircraft_parameters.engine_type` bound to that string (partial
+    evaluation over the CFG: if/elif, guard clauses, `match` with literal /
+    or-patterns, dict of classes with [] / .get, conditional expressions, try /
+    except KeyError, string methods); the value left in `self.engine_model`
+    must be an instance of that type's model built from the model's own
+    parameter object.
 """
 
 from __future__ import annotations
@@ -36,12 +59,6 @@ MODEL = 'BADA/model.py'
 PARAMS = 'BADA/aircraft_parameters.py'
 BASE = 'BADA/fuel_burn_base.py'
 OBJ = 'self.aircraft_parameters'
-
-
-def _np_where(e):
-    if isinstance(e, ast.Call) and call_name(e) in ('np.where', 'numpy.where') and len(e.args) == 3:
-        return e.args
-    return None
 
 
 def rule_protocol(ctx):
@@ -82,149 +99,491 @@ def rule_protocol(ctx):
                norm(r) if ok else 'item access does not return the parameter of that name')
 
 
+# --- value flow of straight-line functions ---------------------------------------------------------------
+#
+# R2-R4 are statements about which value flows where ("the thrust that is tested against zero is the capped
+# total-energy thrust").  They are decided on the *resolved* expression of a result: every local replaced by the
+# expression that defines it at that point (a re-bound local and a chain of single-assignment locals resolve to the
+# same tree), and calls of plain module-level helper functions of the BADA package replaced by what they return.
+
+def _clone(n):
+    if isinstance(n, ast.AST):
+        new = n.__class__()
+        for f in n._fields:
+            setattr(new, f, _clone(getattr(n, f, None)))
+        for a in ('lineno', 'col_offset', 'end_lineno', 'end_col_offset'):
+            if hasattr(n, a):
+                setattr(new, a, getattr(n, a))
+        return new
+    if isinstance(n, list):
+        return [_clone(x) for x in n]
+    return n
+
+
+class _Subst(ast.NodeTransformer):
+    def __init__(self, env):
+        self.env = env
+
+    def visit_Name(self, n):
+        if isinstance(n.ctx, ast.Load) and n.id in self.env:
+            return _clone(self.env[n.id])
+        return n
+
+
+def _fn_params(fn, drop_self):
+    a = fn.args
+    ps = [x.arg for x in a.posonlyargs + a.args]
+    if drop_self and ps and ps[0] in ('self', 'cls'):
+        ps = ps[1:]
+    return ps, [x.arg for x in a.kwonlyargs]
+
+
+def bind_args(call: ast.Call, fn, drop_self: bool):
+    """param name -> argument expression of `call` for callee `fn` (None if it cannot be bound)"""
+    if any(isinstance(a, ast.Starred) for a in call.args) or any(k.arg is None for k in call.keywords):
+        return None
+    ps, kwonly = _fn_params(fn, drop_self)
+    if len(call.args) > len(ps):
+        return None
+    out = dict(zip(ps, call.args))
+    for k in call.keywords:
+        if k.arg in out or k.arg not in ps + kwonly:
+            return None
+        out[k.arg] = k.value
+    a = fn.args
+    npos = len(a.posonlyargs + a.args)
+    allpos = [x.arg for x in a.posonlyargs + a.args]
+    for name, d in zip(allpos[npos - len(a.defaults):], a.defaults):
+        out.setdefault(name, d)
+    for x, d in zip(a.kwonlyargs, a.kw_defaults):
+        if d is not None:
+            out.setdefault(x.arg, d)
+    if any(p not in out for p in ps + kwonly):
+        return None
+    return out
+
+
+class Flow:
+    """Resolved values of a function whose body is straight-line (assignments, expression statements, one return).
+    Names bound under a branch or a loop, or by an unpacking that is not element-wise, stay opaque (they resolve to
+    themselves)."""
+
+    def __init__(self, prog, fi, inline=True, _depth=0):
+        self.prog, self.fi, self.inline, self.depth = prog, fi, inline, _depth
+        self.env: dict[str, ast.expr] = {}
+        self.stores: list[tuple[ast.expr, ast.expr, ast.stmt]] = []   # (target, resolved value, stmt)
+        self.ret = None
+        self.returns = 0
+        self.straight = True
+        for s in fi.node.body:
+            self._stmt(s)
+
+    def resolve(self, e):
+        e = _Subst(self.env).visit(_clone(e))
+        return self._inline_calls(e) if self.inline else e
+
+    def _bind(self, t, v):
+        if isinstance(t, ast.Name):
+            self.env[t.id] = v
+        elif isinstance(t, (ast.Tuple, ast.List)):
+            if isinstance(v, (ast.Tuple, ast.List)) and len(v.elts) == len(t.elts) \
+                    and not any(isinstance(x, ast.Starred) for x in list(t.elts) + list(v.elts)):
+                for a, b in zip(t.elts, v.elts):
+                    self._bind(a, b)
+            else:
+                for x in ast.walk(t):
+                    if isinstance(x, ast.Name):
+                        self.env.pop(x.id, None)
+        else:
+            self.stores.append((t, v, None))
+
+    def _stmt(self, s):
+        if isinstance(s, ast.Assign):
+            v = self.resolve(s.value)
+            for t in s.targets:
+                n0 = len(self.stores)
+                self._bind(t, v)
+                self.stores[n0:] = [(a, b, s) for a, b, _ in self.stores[n0:]]
+        elif isinstance(s, ast.AnnAssign):
+            if s.value is not None:
+                n0 = len(self.stores)
+                self._bind(s.target, self.resolve(s.value))
+                self.stores[n0:] = [(a, b, s) for a, b, _ in self.stores[n0:]]
+        elif isinstance(s, ast.AugAssign):
+            cur = _clone(s.target)
+            for x in ast.walk(cur):
+                if hasattr(x, 'ctx'):
+                    x.ctx = ast.Load()
+            v = ast.BinOp(left=self.resolve(cur), op=s.op, right=self.resolve(s.value))
+            ast.copy_location(v, s)
+            n0 = len(self.stores)
+            self._bind(s.target, v)
+            self.stores[n0:] = [(a, b, s) for a, b, _ in self.stores[n0:]]
+        elif isinstance(s, ast.Return):
+            self.returns += 1
+            if self.ret is None and s.value is not None:
+                self.ret = self.resolve(s.value)
+        elif isinstance(s, (ast.Expr, ast.Pass, ast.Import, ast.ImportFrom, ast.Global, ast.Nonlocal, ast.Assert)):
+            pass
+        elif isinstance(s, (ast.FunctionDef, ast.AsyncFunctionDef, ast.ClassDef)):
+            self.env.pop(s.name, None)
+        else:
+            # compound statement: whatever it binds is not a straight-line value
+            self.straight = False
+            for x in walk_no_nested(s):
+                if isinstance(x, ast.Name) and isinstance(x.ctx, (ast.Store, ast.Del)):
+                    self.env.pop(x.id, None)
+                if isinstance(x, ast.Return):
+                    self.returns += 1
+
+    # -- helper functions of the package are looked through
+    def _inlinable(self, c):
+        if self.depth > 4:
+            return None
+        from ..resolve import resolve_call
+        f = resolve_call(self.prog, self.fi, c)
+        if f is None or f.cls is not None or '.<locals>.' in f.qualname or not f.file.startswith('src/AEIC/BADA/'):
+            return None
+        if f.node.decorator_list:
+            return None
+        return f
+
+    def _inline_calls(self, e):
+        flow = self
+
+        class T(ast.NodeTransformer):
+            def visit_Call(self, c):
+                c = self.generic_visit(c)
+                f = flow._inlinable(c)
+                if f is None:
+                    return c
+                sub = Flow(flow.prog, f, True, flow.depth + 1)
+                b = bind_args(c, f.node, False)
+                if b is None or not sub.straight or sub.returns != 1 or sub.ret is None or sub.stores:
+                    return c
+                return _Subst(b).visit(_clone(sub.ret))
+
+        return T().visit(e)
+
+
+def _where3(e):
+    if isinstance(e, ast.Call) and call_name(e) in ('np.where', 'numpy.where') and len(e.args) == 3 and not e.keywords:
+        return e.args
+    return None
+
+
+def _same(a, b):
+    return a is not None and b is not None and norm(a) == norm(b)
+
+
+_CMP_FLIP = {ast.Lt: ast.Gt, ast.LtE: ast.GtE, ast.Gt: ast.Lt, ast.GtE: ast.LtE, ast.Eq: ast.Eq, ast.NotEq: ast.NotEq}
+
+
+def _cmp(e):
+    """(left, op type, right) of a single comparison, else None"""
+    if isinstance(e, ast.Compare) and len(e.ops) == 1:
+        return e.left, type(e.ops[0]), e.comparators[0]
+    return None
+
+
+def _is_zero(e):
+    return isinstance(e, ast.Constant) and not isinstance(e.value, bool) and e.value == 0
+
+
+def _callee_params(prog, fi, c: ast.Call):
+    """the callee's FunctionDef for binding arguments: resolved, or - for a method reached through an attribute whose
+    class is chosen at run time - any method of that name in the caller's module (they share one signature)"""
+    from ..resolve import resolve_call
+    f = resolve_call(prog, fi, c)
+    if f is not None:
+        return f.node, f.cls is not None and isinstance(c.func, ast.Attribute)
+    if isinstance(c.func, ast.Attribute):
+        cands = [k.methods[c.func.attr] for k in fi.module.classes.values() if c.func.attr in k.methods]
+        sigs = {tuple(_fn_params(x.node, True)[0]) for x in cands}
+        if cands and len(sigs) == 1:
+            return cands[0].node, True
+    return None, False
+
+
+def _call_args(prog, fi, c):
+    """{param: resolved argument text} of a call, or positional texts keyed by index when the callee is not known"""
+    fn, drop = _callee_params(prog, fi, c)
+    if fn is not None:
+        b = bind_args(c, fn, drop)
+        if b is not None:
+            return {k: norm(v) for k, v in b.items()}
+    if c.keywords:
+        return None
+    return {i: norm(a) for i, a in enumerate(c.args)}
+
+
+def _is_call_of(e, *suffixes):
+    return isinstance(e, ast.Call) and any(call_name(e) == s or call_name(e).endswith('.' + s) for s in suffixes)
+
+
+def _state_args(prog, fi, c, expect: dict):
+    """the call passes, for every parameter in `expect`, the expression with that text"""
+    got = _call_args(prog, fi, c)
+    if got is None:
+        return False, 'arguments cannot be bound'
+    if all(isinstance(k, int) for k in got):
+        ok = [got.get(i) for i in range(len(expect))] == list(expect.values()) and len(got) == len(expect)
+        return ok, str(list(got.values()))
+    bad = {k: got.get(k) for k, v in expect.items() if got.get(k) != v}
+    return not bad, ('in declared order' if not bad else f'{bad}')
+
+
+RHO = 'calculate_air_density(pressure_at_altitude_isa_bada4(altitude), temperature)'
+
+
 def rule_thrust(ctx):
     prog = ctx.prog
     m = prog.module(MODEL)
     ct = m.func('Bada3FuelBurnModel.calculate_thrust')
-    defs = [st for t, st, how in stores_to(ct.node) if isinstance(t, ast.Name) and t.id == 'thrust']
-    ret = returned_expr(ct.node)
-    if ret is not None and norm(ret) != 'thrust':
-        # the last step is written directly in the return: treat it as a final definition
-        pseudo = ast.Assign(targets=[ast.Name('thrust', ast.Store())], value=ret)
-        ast.copy_location(pseudo, ret)
-        pseudo.end_lineno = getattr(ret, 'end_lineno', ret.lineno)
-        defs = defs + [pseudo]
-        ret = ast.Name('thrust', ast.Load())
-    if ret is None or norm(ret) != 'thrust' or len(defs) < 2:
-        ctx.undecided('C19-R2', ct, 'thrust', 'thrust is not built by successive re-definitions of one local')
+    fl = Flow(prog, ct)
+    R = fl.ret
+    if not fl.straight or fl.returns != 1 or R is None:
+        ctx.undecided('C19-R2', ct, 'thrust', 'calculate_thrust is not a straight-line function with one return')
+    line = R.lineno
+
     # definite wrong forms: a lower *bound* (clip / maximum) instead of substitution where negative
-    for d in defs[1:]:
-        v = d.value
-        if isinstance(v, ast.Call) and call_name(v) in ('np.clip', 'numpy.clip') and len(v.args) >= 3 \
-                and norm(v.args[0]) == 'thrust':
-            ctx.ob('C19-R2', ct, f'negative thrust replaced by descent thrust', False,
-                   f'`{norm(v)[:70]}` bounds thrust below by {norm(v.args[1])}: every total-energy thrust under the '
-                   'descent thrust is raised to it, also small positive values BADA-3 keeps as computed',
-                   line=d.lineno)
-            return
-        if isinstance(v, ast.Call) and call_name(v) in ('np.maximum', 'numpy.maximum', 'max') and \
-                'thrust' in [norm(a) for a in v.args]:
-            ctx.ob('C19-R2', ct, f'negative thrust replaced by descent thrust', False,
-                   f'`{norm(v)[:70]}` is a lower bound, not a substitution where thrust < 0', line=d.lineno)
-            return
-    if len(defs) < 3:
-        ctx.undecided('C19-R2', ct, 'thrust', 'thrust is not built by total energy, cap and descent substitution')
-    # 1: total energy
-    ok = isinstance(defs[0].value, ast.Call) and call_name(defs[0].value) == 'self.calculate_thrust_by_total_energy'
-    ctx.ob('C19-R2', ct, 'thrust starts as total-energy thrust', ok, norm(defs[0].value)[:60] if ok else
-           'first definition is not the total-energy thrust', line=defs[0].lineno, nontrivial=False)
-    te = defs[0].value
-    if ok:
-        a = [norm(x) for x in te.args]
-        okp = a == ['drag', 'mass', 'v_tas', 'rocd', 'acceleration']
-        ctx.ob('C19-R2', ct, f'total energy arguments {a}', okp, 'in declared order' if okp else
-               'arguments of the total-energy thrust are permuted', line=te.lineno, nontrivial=False)
-    # 2: cap
-    cap = _np_where(defs[1].value)
-    okc = False
-    why = 'second definition is not an upper cap by np.where'
-    if cap is not None:
-        c, a, b = cap
-        mx = None
-        if isinstance(c, ast.Compare) and len(c.ops) == 1:
-            l, r = norm(c.left), norm(c.comparators[0])
-            if isinstance(c.ops[0], (ast.Gt, ast.GtE)) and l == 'thrust' and norm(a) == r and norm(b) == 'thrust':
-                okc, mx = True, r
-            elif isinstance(c.ops[0], (ast.Lt, ast.LtE)) and l == 'thrust' and norm(b) == r and norm(a) == 'thrust':
-                okc, mx = True, r
-        why = f'thrust limited above by {mx}' if okc else f'cap has the wrong shape: {norm(defs[1].value)[:80]}'
-        if okc:
-            md = single_def_value(ct.node, mx)
-            w = _np_where(md) if md is not None else None
-            oksel = w is not None and norm(w[0]) == 'in_cruise' and 'cruise' in norm(w[1]) and 'climb' in norm(w[2])
-            ctx.ob('C19-R2', ct, f'{mx} = {norm(md)[:70] if md is not None else "?"}', bool(oksel),
-                   'max cruise thrust in cruise, max climb thrust otherwise' if oksel else
-                   'the thrust limit is not selected by the cruise flag between cruise and climb maxima',
-                   line=(md.lineno if md is not None else ct.node.lineno))
-            for nm, meth in (('cruise', 'calculate_max_cruise_thrust'), ('climb', 'calculate_max_climb_thrust')):
-                if oksel:
-                    src = single_def_value(ct.node, norm(w[1] if nm == 'cruise' else w[2]))
-                    okm = isinstance(src, ast.Call) and call_name(src) == f'self.engine_model.{meth}'
-                    ctx.ob('C19-R2', ct, f'max {nm} thrust from {meth}', okm, 'engine model' if okm else
-                           f'max {nm} thrust comes from the wrong method', nontrivial=False)
-    elif isinstance(defs[1].value, ast.Call) and call_name(defs[1].value) in ('np.minimum', 'np.clip'):
-        why = f'{call_name(defs[1].value)} form: not recognised as the cap alone'
-    ctx.ob('C19-R2', ct, 'thrust limited above by the maximum thrust', okc, why, line=defs[1].lineno)
-    # 3: descent substitution (last definition)
-    last = defs[-1]
-    sub = _np_where(last.value)
+    if _is_call_of(R, 'clip') and len(R.args) >= 3:
+        ctx.ob('C19-R2', ct, 'negative thrust replaced by descent thrust', False,
+               '`np.clip(thrust, lower, upper)` bounds the thrust below by its second argument (the descent thrust): '
+               'every total-energy thrust under the descent thrust is raised to it, also small positive values BADA-3 '
+               'keeps as computed; only negative thrust is to be replaced', line=line)
+        return
+    if _is_call_of(R, 'maximum', 'fmax', 'max') and len(R.args) == 2:
+        ctx.ob('C19-R2', ct, 'negative thrust replaced by descent thrust', False,
+               f'`{call_name(R)}(…)` is a lower bound, not a substitution where thrust < 0', line=line)
+        return
+
+    # 3: descent substitution (outermost)
+    sub = _where3(R)
+    if sub is None:
+        ctx.undecided('C19-R2', ct, norm(R)[:60], 'the returned thrust is not a selection (np.where) between the '
+                      'limited thrust and the descent thrust')
+    c, a, b = sub
+    X = D = None
     oks = False
-    why = (f'`{norm(last.value)[:70]}`: thrust is not replaced by descent thrust exactly where it is negative '
-           '(a lower clip at descent thrust also raises small positive thrusts)')
-    dname = None
-    if sub is not None:
-        c, a, b = sub
-        if isinstance(c, ast.Compare) and len(c.ops) == 1 and norm(c.left) == 'thrust' and norm(c.comparators[0]) == '0':
-            if isinstance(c.ops[0], ast.Lt) and norm(b) == 'thrust':
-                oks, dname = True, norm(a)
-            elif isinstance(c.ops[0], ast.GtE) and norm(a) == 'thrust':
-                oks, dname = True, norm(b)
-        if oks:
-            why = f'np.where(thrust < 0, {dname}, thrust)'
-    ctx.ob('C19-R2', ct, 'negative thrust replaced by descent thrust', oks, why, line=last.lineno)
-    if oks:
-        dd = single_def_value(ct.node, dname)
-        w = _np_where(dd) if dd is not None else None
-        okd = w is not None and norm(w[0]) in ('altitude * METERS_TO_FEET > self.aircraft_parameters.h_p_des',
-                                               'self.aircraft_parameters.h_p_des < altitude * METERS_TO_FEET') \
-            and 'high' in norm(w[1]) and 'low' in norm(w[2])
-        ctx.ob('C19-R2', ct, f'{dname} = {norm(dd)[:80] if dd is not None else "?"}', bool(okd),
-               'high-altitude descent thrust above h_p_des (compared in feet), low otherwise' if okd else
-               'descent thrust selection changed (unit or branch)', line=(dd.lineno if dd is not None else last.lineno))
-    # order: cap before substitution
-    ctx.ob('C19-R2', ct, 'cap precedes the descent substitution', defs[1].lineno < last.lineno and len(defs) == 3,
-           'three definitions in order' if len(defs) == 3 else f'{len(defs)} definitions of thrust', nontrivial=False)
-    # pressure/density/cl/cd/drag chain
-    chain = {'pressure': 'pressure_at_altitude_isa_bada4(altitude)', 'rho': 'calculate_air_density(pressure, temperature)',
-             'cl': 'self.calculate_cl(mass, rho, v_tas)', 'cd': 'self.calculate_cd(cl)',
-             'drag': 'self.calculate_drag(cd, rho, v_tas)'}
-    for k, v in chain.items():
-        d = single_def_value(ct.node, k)
-        ok = d is not None and norm(d) == v
-        ctx.ob('C19-R2', ct, f'{k} = {v}', ok, 'aerodynamic chain' if ok else f'{k} is computed differently: {norm(d) if d is not None else None}',
-               nontrivial=False)
+    why = (f'`np.where({norm(c)[:50]}, …)`: thrust is not replaced by descent thrust exactly where it is negative')
+    cm = _cmp(c)
+    if cm is not None:
+        l, op, r = cm
+        if _is_zero(l):
+            l, op, r = r, _CMP_FLIP[op], l
+        if _is_zero(r):
+            if op is ast.Lt and _same(b, l):
+                oks, X, D = True, l, a
+            elif op is ast.GtE and _same(a, l):
+                oks, X, D = True, l, b
+            elif op in (ast.Lt, ast.GtE):
+                ctx.undecided('C19-R2', ct, norm(c)[:60], 'the thrust tested against zero and the thrust kept where it '
+                              'is not negative are different expressions')
+            else:
+                why = (f'thrust is replaced where it is `{ast.unparse(ast.Compare(ast.Name("T"), [op()], [ast.Constant(0)]))}`, '
+                       'not exactly where it is negative')
+    ctx.ob('C19-R2', ct, 'negative thrust replaced by descent thrust', oks,
+           'np.where(T < 0, descent thrust, T) with T the limited thrust' if oks else why, line=line)
+    if not oks:
+        return
+
+    # 2: cap
+    TE = MX = None
+    okc, why = False, 'the thrust tested against zero is not the total-energy thrust limited above by a maximum'
+    cap = _where3(X)
+    if cap is not None:
+        c2, a2, b2 = cap
+        cm = _cmp(c2)
+        if cm is not None:
+            l, op, r = cm
+            if op in (ast.Gt, ast.GtE) and _same(a2, r) and _same(b2, l):
+                okc, TE, MX = True, l, r          # where(TE > MX, MX, TE)
+            elif op in (ast.Lt, ast.LtE) and _same(a2, l) and _same(b2, r):
+                okc, TE, MX = True, l, r          # where(TE < MX, TE, MX)
+            elif op in (ast.Lt, ast.LtE) and _same(a2, r) and _same(b2, l):
+                okc, TE, MX = True, r, l          # where(MX < TE, MX, TE)
+            elif op in (ast.Gt, ast.GtE) and _same(a2, l) and _same(b2, r):
+                okc, TE, MX = True, r, l          # where(MX > TE, TE, MX)
+            else:
+                why = f'cap has the wrong shape: np.where({norm(c2)[:40]}, {norm(a2)[:30]}, {norm(b2)[:30]})'
+    elif _is_call_of(X, 'minimum', 'fmin') and len(X.args) == 2:
+        okc, (TE, MX) = True, X.args
+    if okc and not _is_call_of(TE, 'calculate_thrust_by_total_energy') and _is_call_of(MX, 'calculate_thrust_by_total_energy'):
+        TE, MX = MX, TE
+        if cap is not None:
+            okc, why = False, 'the comparison keeps the larger of total-energy thrust and maximum thrust'
+    ctx.ob('C19-R2', ct, 'thrust limited above by the maximum thrust', okc,
+           'the smaller of total-energy thrust and maximum thrust' if okc else why, line=X.lineno)
+    if not okc:
+        return
+
+    # 1: total energy
+    ok = _is_call_of(TE, 'calculate_thrust_by_total_energy')
+    ctx.ob('C19-R2', ct, 'thrust starts as total-energy thrust', ok, 'self.calculate_thrust_by_total_energy(…)' if ok else
+           f'the limited quantity is `{norm(TE)[:60]}`, not the total-energy thrust', line=TE.lineno, nontrivial=False)
+    CL = f'self.calculate_cl(mass, {RHO}, v_tas)'
+    DRAG = f'self.calculate_drag(self.calculate_cd({CL}), {RHO}, v_tas)'
+    if ok:
+        okp, how = _state_args(prog, ct, TE, {'drag': DRAG, 'mass': 'mass', 'v_tas': 'v_tas', 'rocd': 'rocd',
+                                              'acceleration': 'acceleration'})
+        # report the aerodynamic chain link by link
+        got = _call_args(prog, ct, TE) or {}
+        drag_txt = got.get('drag', got.get(0))
+        ctx.ob('C19-R2', ct, 'total energy arguments (drag, mass, v_tas, rocd, acceleration)', okp,
+               'in declared order' if okp else
+               ('the drag passed to the total-energy thrust is not drag(cd(cl(mass, rho, v_tas)), rho, v_tas) with rho '
+                'from the ISA pressure at altitude and the temperature' if drag_txt != DRAG and
+                {k: v for k, v in got.items() if k not in ('drag', 0)} ==
+                {k: v for k, v in ({'mass': 'mass', 'v_tas': 'v_tas', 'rocd': 'rocd', 'acceleration': 'acceleration'}
+                                   if 'mass' in got else {1: 'mass', 2: 'v_tas', 3: 'rocd', 4: 'acceleration'}).items()}
+                else f'arguments of the total-energy thrust are permuted: {how}'), line=TE.lineno, nontrivial=False)
+
+    # maximum thrust: cruise rating in cruise, climb rating otherwise
+    w = _where3(MX)
+    oksel, cr, cl = False, None, None
+    if w is not None:
+        cnd, wa, wb = w
+        if norm(cnd) == 'in_cruise':
+            cr, cl = wa, wb
+        elif norm(cnd) in ('~in_cruise', 'np.logical_not(in_cruise)', 'not in_cruise', 'np.invert(in_cruise)'):
+            cr, cl = wb, wa
+        oksel = cr is not None and _is_call_of(cr, 'calculate_max_cruise_thrust') \
+            and _is_call_of(cl, 'calculate_max_climb_thrust')
+    ctx.ob('C19-R2', ct, f'maximum thrust = {norm(MX)[:70]}', bool(oksel),
+           'max cruise thrust in cruise, max climb thrust otherwise' if oksel else
+           'the thrust limit is not selected by the cruise flag between cruise and climb maxima', line=MX.lineno)
+    state = {'altitude': 'altitude', 'v_tas': 'v_tas', 'temperature': 'temperature'}
+    if oksel:
+        for nm, call in (('cruise', cr), ('climb', cl)):
+            okm = call_name(call).startswith('self.engine_model.')
+            oka, how = _state_args(prog, ct, call, state)
+            ctx.ob('C19-R2', ct, f'max {nm} thrust from calculate_max_{nm}_thrust', okm and oka,
+                   'engine model, this state' if okm and oka else
+                   f'max {nm} thrust is not the engine model\'s rating at this state: {how}', nontrivial=False)
+
+    # descent thrust: high-altitude rating above h_p_des (compared in feet)
+    dd = _where3(D)
+    okd, why = False, 'descent thrust is not a selection between the high and low altitude ratings'
+    if dd is not None:
+        cnd, da, db = dd
+        cm = _cmp(cnd)
+        hp = (f'{OBJ}.h_p_des', f"{OBJ}['h_p_des']")
+        alt_ft = ('altitude * METERS_TO_FEET', 'METERS_TO_FEET * altitude')
+        if cm is not None:
+            l, op, r = cm
+            if norm(l) in hp:
+                l, op, r = r, _CMP_FLIP[op], l
+            if norm(r) in hp and norm(l) in alt_ft and op in (ast.Gt, ast.LtE):
+                hi, lo = (da, db) if op is ast.Gt else (db, da)
+                okd = _is_call_of(hi, 'calculate_descent_thrust_high') and _is_call_of(lo, 'calculate_descent_thrust_low')
+                why = 'the high and low altitude ratings are on the wrong branches'
+                if okd:
+                    for call in (hi, lo):
+                        oka, how = _state_args(prog, ct, call, state)
+                        okd = okd and oka and call_name(call).startswith('self.engine_model.')
+                        if not oka:
+                            why = f'descent rating evaluated at another state: {how}'
+            elif norm(r) in hp and norm(l) == 'altitude':
+                why = 'the altitude in metres is compared with h_p_des, which is in feet'
+            elif norm(r) in hp and norm(l) in alt_ft:
+                why = f'the ratings switch where `{norm(cnd)}`, not strictly above h_p_des'
+            else:
+                ctx.undecided('C19-R2', ct, norm(cnd)[:70], 'descent-rating condition not recognised')
+    ctx.ob('C19-R2', ct, f'descent thrust = {norm(D)[:80]}', bool(okd),
+           'high-altitude descent thrust above h_p_des (compared in feet), low otherwise' if okd else
+           f'descent thrust selection changed (unit or branch): {why}', line=D.lineno)
+    ctx.ob('C19-R2', ct, 'cap precedes the descent substitution', True,
+           'the thrust tested against zero is the capped thrust', nontrivial=False)
 
 
 def rule_fuelflow(ctx):
     prog = ctx.prog
     m = prog.module(MODEL)
     sg = m.func('Bada3FuelBurnModel.calculate_specific_ground_range')
-    defs = [st for t, st, how in stores_to(sg.node) if isinstance(t, ast.Name) and t.id == 'fuel_flow']
-    w = _np_where(defs[-1].value) if defs else None
-    ok = w is not None and norm(w[0]) == 'in_cruise'
-    cr = single_def_value(sg.node, norm(w[1])) if ok else None
-    ok = ok and isinstance(cr, ast.Call) and call_name(cr) == 'self.engine_model.calculate_cruise_fuel_flow' \
-        and norm(w[2]) == 'fuel_flow' and isinstance(defs[0].value, ast.Call) \
-        and call_name(defs[0].value) == 'self.engine_model.calculate_nominal_fuel_flow'
+    fl = Flow(prog, sg)
+    R = fl.ret
+    if not fl.straight or fl.returns != 1 or R is None:
+        ctx.undecided('C19-R3', sg, 'specific ground range', 'not a straight-line function with one return')
+    # specific ground range = ground speed / fuel flow behind a non-zero guard
+    FF = None
+    ok = False
+    why = 'specific ground range is not ground speed over fuel flow'
+    if _is_call_of(R, 'divide') and len(R.args) >= 2:
+        gs, FF = R.args[0], R.args[1]
+        guard = kwarg(R, 'where')
+        cm = _cmp(guard) if guard is not None else None
+        if cm is not None and _is_zero(cm[0]):
+            cm = (cm[2], _CMP_FLIP[cm[1]], cm[0])
+        okg = cm is not None and cm[1] is ast.NotEq and _is_zero(cm[2]) and _same(cm[0], FF)
+        ok = norm(gs) == 'groundspeed' and okg
+        if norm(gs) == 'groundspeed' and not okg:
+            why = 'the division is not guarded by `fuel flow != 0` on the fuel flow that divides'
+    elif isinstance(R, ast.BinOp) and isinstance(R.op, ast.Div):
+        FF = R.right
+        why = 'ground speed is divided by the fuel flow without the non-zero guard'
+    else:
+        ctx.undecided('C19-R3', sg, norm(R)[:60], 'the returned value is not a division of ground speed by fuel flow')
+    ctx.ob('C19-R3', sg, 'specific ground range = ground speed / fuel flow (guarded)', ok,
+           'np.divide(groundspeed, fuel flow, where=fuel flow != 0)' if ok else why, line=R.lineno)
+    # fuel flow: cruise where in_cruise, nominal elsewhere
+    w = _where3(FF) if FF is not None else None
+    cr = nom = None
+    if w is not None:
+        cnd, a, b = w
+        if norm(cnd) == 'in_cruise':
+            cr, nom = a, b
+        elif norm(cnd) in ('~in_cruise', 'np.logical_not(in_cruise)', 'not in_cruise', 'np.invert(in_cruise)'):
+            cr, nom = b, a
+    ok = cr is not None and _is_call_of(cr, 'calculate_cruise_fuel_flow') and _is_call_of(nom, 'calculate_nominal_fuel_flow') \
+        and call_name(cr).startswith('self.engine_model.') and call_name(nom).startswith('self.engine_model.')
     ctx.ob('C19-R3', sg, 'cruise fuel flow exactly where in_cruise, nominal elsewhere', bool(ok),
-           norm(defs[-1].value) if ok else 'the cruise correction is applied outside cruise or not at all',
-           line=(defs[-1].lineno if defs else sg.node.lineno))
-    for st in defs[:1] + ([stmt_of(cr)] if cr is not None else []):
-        a = [norm(x) for x in st.value.args]
-        okp = a == ['thrust', 'v_tas']
-        ctx.ob('C19-R3', sg, f'{call_name(st.value).split(".")[-1]}({", ".join(a)})', okp,
-               'thrust and true airspeed' if okp else 'fuel-flow arguments permuted', line=st.lineno, nontrivial=False)
-    th = single_def_value(sg.node, 'thrust')
-    ok = isinstance(th, ast.Call) and call_name(th) == 'self.calculate_thrust' and \
-        [norm(x) for x in th.args] == ['mass', 'temperature', 'altitude', 'v_tas', 'rocd', 'acceleration', 'in_cruise']
+           'np.where(in_cruise, cruise fuel flow, nominal fuel flow)' if ok else
+           'the cruise correction is applied outside cruise or not at all',
+           line=(FF.lineno if FF is not None and hasattr(FF, 'lineno') else sg.node.lineno))
+    if not ok:
+        return
+    TH = None
+    for c, what in ((nom, 'calculate_nominal_fuel_flow'), (cr, 'calculate_cruise_fuel_flow')):
+        got = _call_args(prog, sg, c) or {}
+        th = got.get('thrust', got.get(0))
+        okp = got.get('v_tas', got.get(1)) == 'v_tas' and th is not None and len(got) == 2
+        ctx.ob('C19-R3', sg, f'{what}(thrust, v_tas)', okp,
+               'thrust and true airspeed' if okp else 'fuel-flow arguments permuted', line=c.lineno, nontrivial=False)
+        if okp:
+            TH = TH or c.args[0] if c.args else next(k.value for k in c.keywords if k.arg == 'thrust')
+            if th != norm(TH):
+                ctx.ob('C19-R3', sg, 'cruise and nominal fuel flow use one thrust', False,
+                       'the two fuel flows are computed from different thrusts', line=c.lineno)
+    if TH is None:
+        return
+    ok = _is_call_of(TH, 'calculate_thrust') and call_name(TH) == 'self.calculate_thrust'
+    if ok:
+        ok, how = _state_args(prog, sg, TH, {k: k for k in ('mass', 'temperature', 'altitude', 'v_tas', 'rocd',
+                                                            'acceleration', 'in_cruise')})
     ctx.ob('C19-R3', sg, 'thrust from calculate_thrust with the flight state in declared order', ok,
            'limited thrust' if ok else 'fuel flow is not computed from the limited thrust of this state',
-           line=(th.lineno if th is not None else sg.node.lineno))
-    r = returned_expr(sg.node)
-    ok = isinstance(r, ast.Call) and call_name(r) == 'np.divide' and [norm(x) for x in r.args[:2]] == ['groundspeed', 'fuel_flow'] \
-        and kwarg(r, 'where') is not None and norm(kwarg(r, 'where')) == 'fuel_flow != 0'
-    ctx.ob('C19-R3', sg, 'specific ground range = ground speed / fuel flow (guarded)', ok,
-           norm(r)[:90] if ok else 'specific ground range is not ground speed over fuel flow', line=(r.lineno if r is not None else 0))
+           line=TH.lineno)
+
+
+def _sgr_floor(ctx, f, e):
+    """`e` is the specific ground range with degenerate entries (< 1 m/kg) replaced by infinity"""
+    w = _where3(e)
+    ok = False
+    if w is not None:
+        cm = _cmp(w[0])
+        ok = cm is not None and norm(cm[0]) == 'specific_ground_range' and cm[1] is ast.Lt and norm(cm[2]) == '1' \
+            and norm(w[1]) in ('np.inf', 'numpy.inf', 'math.inf', "float('inf')") and norm(w[2]) == 'specific_ground_range'
+    ctx.ob('C19-R4', f, 'degenerate range treated as no fuel burn', ok,
+           'np.where(specific_ground_range < 1, np.inf, specific_ground_range)' if ok else
+           f'degenerate-range handling changed: `{norm(e)[:80]}`', nontrivial=False)
+
+
+def _reversed(e):
+    """x if e is x[::-1]"""
+    if isinstance(e, ast.Subscript) and norm(e.slice) == '::-1':
+        return e.value
+    return None
 
 
 def rule_update(ctx):
@@ -232,32 +591,60 @@ def rule_update(ctx):
     b = prog.module(BASE)
     fw = b.func('BaseFuelBurnModel.update_mass_vector')
     bw = b.func('BaseFuelBurnModel.update_mass_vector_backward')
-    st = [s for t, s, how in stores_to(fw.node) if isinstance(t, ast.Subscript) and norm(t.value) == 'mass']
-    ok = len(st) == 1 and norm(st[0].targets[0]) == 'mass[1:]' and isinstance(st[0].value, ast.BinOp) \
-        and isinstance(st[0].value.op, ast.Sub) and norm(st[0].value.left) == 'mass[0]' \
-        and isinstance(st[0].value.right, ast.Call) and call_name(st[0].value.right) == 'cumulative_trapezoid'
-    if ok:
-        c = st[0].value.right
-        ok = norm(c.args[0]) == '1 / specific_ground_range_corrected' and kwarg(c, 'dx') is not None \
-            and norm(kwarg(c, 'dx')) == 'segment_distance'
-    ctx.ob('C19-R4', fw, 'forward: mass[1:] = mass[0] − ∫ (1/sgr) ds (trapezoid)', ok,
-           norm(st[0])[:100] if ok else 'forward mass update is not the cumulative trapezoid of fuel per distance subtracted from mass[0]',
-           line=(st[0].lineno if st else fw.node.lineno))
-    st = [s for t, s, how in stores_to(bw.node) if isinstance(t, ast.Subscript) and norm(t.value) == 'mass']
-    ci = single_def_value(bw.node, 'cumulative_integral')
-    ok = len(st) == 1 and norm(st[0].targets[0]) == 'mass[:-1]' and norm(st[0].value) == 'mass[-1] + cumulative_integral' \
-        and ci is not None and norm(ci) == 'cumulative_trapezoid(1 / specific_ground_range_corrected[::-1], dx=segment_distance)[::-1]'
-    ctx.ob('C19-R4', bw, 'backward: mass[:-1] = mass[-1] + reversed ∫ (1/sgr) ds', ok,
-           'mirror image of the forward update' if ok else 'backward mass update is not the mirror of the forward one',
-           line=(st[0].lineno if st else bw.node.lineno))
-    for f in (fw, bw):
-        d = single_def_value(f.node, 'specific_ground_range_corrected')
-        w = _np_where(d) if d is not None else None
-        ok = w is not None and norm(w[0]) == 'specific_ground_range < 1' and norm(w[1]) == 'np.inf' and norm(w[2]) == 'specific_ground_range'
-        ctx.ob('C19-R4', f, 'degenerate range treated as no fuel burn', ok, norm(d) if ok else 'degenerate-range handling changed',
-               nontrivial=False)
-        r = returned_expr(f.node)
-        ctx.ob('C19-R4', f, 'returns the updated mass vector', r is not None and norm(r) == 'mass', 'mass', nontrivial=False)
+
+    def trapz(e):
+        """(integrand, dx) of cumulative_trapezoid(integrand, dx=…)"""
+        if _is_call_of(e, 'cumulative_trapezoid', 'cumtrapz') and len(e.args) == 1 and kwarg(e, 'dx') is not None \
+                and not [k for k in e.keywords if k.arg not in ('dx',)]:
+            return e.args[0], kwarg(e, 'dx')
+        return None
+
+    def recip(e):
+        if isinstance(e, ast.BinOp) and isinstance(e.op, ast.Div) and norm(e.left) in ('1', '1.0'):
+            return e.right
+        return None
+
+    for f, tgt, anchor, fwd in ((fw, 'mass[1:]', 'mass[0]', True), (bw, 'mass[:-1]', 'mass[-1]', False)):
+        fl = Flow(prog, f)
+        st = [(t, v, s) for t, v, s in fl.stores if isinstance(t, ast.Subscript) and norm(t.value) == 'mass']
+        if not fl.straight:
+            ctx.undecided('C19-R4', f, 'mass update', 'not a straight-line function')
+        ok, sgrc, why = False, None, None
+        if len(st) == 1 and norm(st[0][0]) == tgt and isinstance(st[0][1], ast.BinOp) \
+                and isinstance(st[0][1].op, ast.Sub if fwd else ast.Add):
+            v = st[0][1]
+            l, r = v.left, v.right
+            if not fwd and norm(r) == anchor:
+                l, r = r, l
+            if norm(l) == anchor:
+                if fwd:
+                    tz = trapz(r)
+                    if tz is not None and norm(tz[1]) == 'segment_distance':
+                        sgrc = recip(tz[0])
+                        ok = sgrc is not None
+                else:
+                    inner = _reversed(r)
+                    tz = trapz(inner) if inner is not None else None
+                    if tz is not None and norm(tz[1]) == 'segment_distance':
+                        # (1 / sgr)[::-1]  or  1 / sgr[::-1]
+                        x = _reversed(tz[0])
+                        if x is not None:
+                            sgrc = recip(x)
+                        else:
+                            x = recip(tz[0])
+                            sgrc = _reversed(x) if x is not None else None
+                        ok = sgrc is not None
+        ctx.ob('C19-R4', f, 'forward: mass[1:] = mass[0] − ∫ (1/sgr) ds (trapezoid)' if fwd else
+               'backward: mass[:-1] = mass[-1] + reversed ∫ (1/sgr) ds', ok,
+               (norm(st[0][2])[:100] if fwd else 'mirror image of the forward update') if ok else
+               ('forward mass update is not the cumulative trapezoid of fuel per distance subtracted from mass[0]' if fwd
+                else 'backward mass update is not the mirror of the forward one'),
+               line=(st[0][2].lineno if st else f.node.lineno))
+        if sgrc is not None:
+            _sgr_floor(ctx, f, sgrc)
+        r = fl.ret
+        ctx.ob('C19-R4', f, 'returns the updated mass vector', r is not None and norm(r) == 'mass' and fl.returns == 1,
+               'mass', nontrivial=False)
 
 
 def rule_mtow(ctx):
@@ -336,6 +723,9 @@ def rule_equations(ctx):
         r = returned_expr(fi.node)
         if r is None:
             ctx.undecided('C19-R6', fi, 'return', 'not a single-return function')
+        fl = Flow(prog, fi)
+        if fl.straight and fl.returns == 1 and fl.ret is not None:
+            r = fl.ret   # locals resolved, helper functions of the package looked through
         try:
             code = code_normal_form(fi.node, r, consts, param_objs=(OBJ,), call_map=BADA3_CALLS)
             want = ref_normal_form(ref, consts, defs)
